@@ -1209,7 +1209,7 @@ int sx127x_fsk_ook_rx_set_rssi_config(sx127x_rssi_smoothing_t smoothing, int8_t 
   if (offset < -16 || offset > 15) {
     return SX127X_ERR_INVALID_ARG;
   }
-  uint8_t value = (offset << 3) | smoothing;
+  uint8_t value = (uint8_t) ((uint8_t) offset << 3) | smoothing;
   return sx127x_shadow_spi_write_register(REGRSSICONFIG, &value, 1, &device->spi_device);
 }
 
